@@ -142,6 +142,14 @@ class TDict(Ty):
         return self.sort().accessor(0, 3)(t)
 
 
+class TDefaultDict(TDict):
+    """collections.defaultdict(list): reading a missing key inserts and returns an empty list."""
+
+    def __init__(self, key, val):
+        TDict.__init__(self, key, val)
+        self.name = 'D' + self.name
+
+
 class TOpt(Ty):
     """T or None."""
 
@@ -193,12 +201,13 @@ class TRecord(Ty):
 
 
 class Val:
-    __slots__ = ('ty', 't', 'loc', 'fields')
+    __slots__ = ('ty', 't', 'loc', 'fields', 'finite_cond')
 
     def __init__(self, ty, t, loc=None, fields=None):
         self.ty = ty
         self.t = t
         self.loc = loc          # write-back location for in-place mutation (heap path / variable)
+        self.finite_cond = None  # numpy division: condition under which all entries are finite numbers
         self.fields = fields    # TRecord: dict name -> Val
 
     def __repr__(self):
@@ -280,6 +289,8 @@ def parse_type(s, records=None):
         return TList(args[0])
     if head == 'Dict':
         return TDict(args[0], args[1])
+    if head == 'DefaultDict':
+        return TDefaultDict(args[0], args[1])
     if head == 'Opt':
         return TOpt(args[0])
     if head == 'Tuple':
